@@ -72,12 +72,16 @@ impl BlobReader {
         let meta = self
             .read_bytes(header.meta_size() as usize)
             .with_context(|| "read record meta")?;
-        let meta = bincode::deserialize(&meta)?;
 
         let data = self
             .read_bytes(header.data_size() as usize)
             .with_context(|| "read record data")?
             .into();
+
+        // Metadata is not covered by any checksum. The header is valid, so the reader is past the whole
+        // record now: metadata that does not deserialize makes this record unusable, not the rest of the blob
+        let meta = bincode::deserialize(&meta)
+            .map_err(|err| ToolsError::record_validation_error(format!("meta deserialization: {}", err)))?;
 
         let record = Record { header, meta, data };
         // Metadata is not covered by any checksum. If damaged metadata still deserializes, but into
